@@ -21,19 +21,27 @@ def _module_of(path):
     return m.group(1) if m else None
 
 
-def _literal_from_arg(prog, b, depth=0):
+def _literal_from_arg(prog, b, depth=0, env=None):
     """affine form (in 'id') of the integer turned into a Literal by arg_to_lit"""
+    env = env or {}
     for s in b.calls():
         c = callee_of(s)
         if callee_matches(c, r"^core::convert::From::from$") and b.local_ty(s.node["dst"]["l"]).endswith("sat::sat_solver::Literal"):
-            return eval_operand(prog, b, s.node["args"][0], {}), s
+            return eval_operand(prog, b, s.node["args"][0], env), s
     # through a local helper that builds the literal from the argument (`fn arg_to_solver_lit(arg) -> Literal`)
     if depth < 3:
         for s in b.calls():
             c = callee_of(s)
             t = prog.body_for_callee(c, b) if c and c.get("decl") != "<indirect>" else None
             if t is not None and t.kind != "closure" and t.ret_ty.endswith("sat::sat_solver::Literal"):
-                v, s2 = _literal_from_arg(prog, t, depth + 1)
+                # the helper's parameters are what this call hands over (`pos_lit(arg_id_to_solver_var(arg.id()))`)
+                env2 = {}
+                for i, a in enumerate(s.node["args"]):
+                    if op_place(a) is not None or op_const(a) is not None:
+                        va = eval_operand(prog, b, a, env)
+                        if va is not None:
+                            env2[i + 1] = va
+                v, s2 = _literal_from_arg(prog, t, depth + 1, env2)
                 if v is not None:
                     return v, s2
     return None, None
@@ -55,6 +63,17 @@ def _from_var_cases(prog, fn, vparam, form=None):
                     continue
                 truth = True if c.is_true() else (False if c.is_false() else None)
                 for o in origins(fn, c.place, transparent=()):
+                    if o.kind == "binop" and o.data["op"] == "BitAnd" and fn.local_ty(c.place["l"]) != "bool":
+                        # `match v & mask { k => .., _ => .. }`: a switch on the masked value itself
+                        a = eval_operand(prog, fn, o.data["ops"][0], env)
+                        m = op_const(o.data["ops"][1])
+                        if a is not None and m is not None and "int" in m and len(c.values) == 1:
+                            try:
+                                kv = int(c.values[0])
+                            except ValueError:
+                                continue
+                            conds.append(("Eq", ("and", a, m["int"]), Aff({}, kv), not c.negated))
+                        continue
                     if o.kind == "binop":
                         a = _eval_cond_operand(prog, fn, o.data["ops"][0], env)
                         b2 = _eval_cond_operand(prog, fn, o.data["ops"][1], env)
@@ -570,6 +589,22 @@ def rule_clause_templates(ctx):
                 key = (fam, vname, with_range)
                 want = REFERENCE.get(key)
                 anchor = "%s|%s|%s" % (name, vname or "-", "range" if with_range else "plain")
+                # clauses that reach add_clause from a source the extractor does not model (an iterator handed to a generic
+                # `add them all` helper, a custom Iterator impl, ..): the mode is not decided rather than compared
+                opaque = []
+                for y in prog.reachable_from([mb], virtual_dispatch=False).values():
+                    if not (y.path.startswith("encodings::") or "<encodings::" in y.path.split(" as ")[0]):
+                        continue
+                    for z in prog.with_closures(y):
+                        for s in z.calls():
+                            if callee_matches(callee_of(s), r"sat_solver::SatSolver::add_clause$"):
+                                els = cnf.clause_elements(cnf.Ctx(prog), z, s.node["args"][1])
+                                if any(kd and kd[0] == "unk" and re.search(r"call .*Iterator::next$", str(kd[1] if len(kd) > 1 else "")) for sg, kd, nd, m in els):
+                                    opaque.append(s)
+                if opaque:
+                    n += 1
+                    r.ok(anchor, "NOT decided: %d add_clause site(s) receive their clause from a source the extractor does not model (e.g. %s)" % (len(opaque), opaque[0].loc()), opaque[0].loc())
+                    continue
                 if want is None:
                     r.violation(anchor, "no-reference", "no reference encoding for mode %s of %s: cannot analyse" % (key, name), mb.loc())
                     continue
